@@ -129,6 +129,24 @@ def resolve_cuts(sbv, ctx):
     return SBytes(out)
 
 
+def resolve_symbytes(sbv, ctx):
+    """Replace symbolic bytes whose value the path condition determines by that value."""
+    if ctx is None or not any(isinstance(s, SymByte) for s in sbv.segs):
+        return sbv
+    m = ctx.model()
+    if m is None:
+        return sbv
+    out = []
+    for s in sbv.segs:
+        if isinstance(s, SymByte):
+            v = m.eval(s.bv, model_completion=True).as_long()
+            if ctx.known(s.bv == v):
+                out.append(bytes([v]))
+                continue
+        out.append(s)
+    return SBytes(out)
+
+
 class Atom:
     __slots__ = ("kind", "payload", "a", "b")
 
